@@ -9,6 +9,8 @@ TARGETS = [
     "cascade.gateway.router:JobRouter.get_result",
     "cascade.low.func:next_uuid",
 ]
+# contracts/c18_gateway.py also holds a contract for server.handle_controller; one of its 17 VCs (preservation of the loop invariant
+# through put_result's contract) times out in z3 and cvc5, so it is NOT in the list: the stand-in below decides that function.
 
 
 def run(tier, seed):
